@@ -250,6 +250,9 @@ def run_case(spec, lines, out):
             df, idcols, iddims = build_layout(arr, dims, lay)
             df, idcols, iddims, affected = apply_faults(df, idcols, iddims, op.get("faults", []), dims, lay.get("wide"))
             valcols = [c for c in df.columns if c not in idcols]
+            if lay.get("dup_labels") and lay.get("index") == "none" and len(df) > 1:
+                # row labels that repeat (as after pd.concat without ignore_index): they carry no meaning
+                df.index = [i // 2 for i in range(len(df))]
             df = to_index(df, idcols, lay, rnd, info)
             if lay.get("csv"):
                 df = csv_roundtrip(df, lay, info)
